@@ -496,6 +496,23 @@ class BufEngine:
                 dst, src, ln = (self.val(a, st) for a in args)
                 st.events.append(('memcpy', dst, src, ln, n['id'], st.bufgen, st.bufsize))
                 return None
+            if q in ('std::copy_n', 'std::copy') and len(args) == 3:
+                # element-wise copies of byte ranges are bounded block transfers like memcpy
+                def esize(a):
+                    pt = re.sub(r'\bconst\s+|\s*\*\s*(const)?$', '', tu.sd(tu.strip(a)).get('ct', '')).strip()
+                    return {'unsigned char': 1, 'char': 1, 'signed char': 1}.get(pt)
+                if q == 'std::copy_n':
+                    src, cnt, dst = self.val(args[0], st), self.val(args[1], st), self.val(args[2], st)
+                    es = esize(args[0])
+                    ln = cnt * es if isinstance(cnt, Poly) and es else None
+                else:
+                    src, last, dst = self.val(args[0], st), self.val(args[1], st), self.val(args[2], st)
+                    es = esize(args[0])
+                    ln = (last[3] - src[3]) * es if is_ptr(src) and is_ptr(last) and src[1:3] == last[1:3] and es else None
+                if ln is None or esize(args[2]) != es:
+                    raise Undecided('`%s`: length or element size of the copy is not understood' % tu.show(n))
+                st.events.append(('memcpy', dst, src, ln, n['id'], st.bufgen, st.bufsize))
+                return None
             if q == 'std::make_shared':
                 self.handout(n, args, sd.get('ct', ''), st)
                 return None
@@ -894,7 +911,11 @@ def check_transfer_fn(ctx, tu, f, mode):
             continue
         if mode == 'grow':
             rs = [e for e in st.events if e[0] == 'resize']
-            if len(rs) != 1 or rs[0][2] != cap + L:
+            zero_len = any(op == '==' and p_ == L for p_, op in st.cons) or \
+                (any(op == '<=' and p_ == L for p_, op in st.cons))
+            if not rs and zero_len:
+                pass            # appending nothing: the buffer keeps its size, which is old size + 0
+            elif len(rs) != 1 or rs[0][2] != cap + L:
                 ctx.violation(R1, label, 'the buffer must grow to exactly old size + size once; found %s'
                               % ([show(e[2]) for e in rs] or 'no resize'), tu.fn_loc(f), key='%s|%s|grow' % (R1, keybase),
                               path=path_text(tu, g, st))
